@@ -83,6 +83,8 @@ pub fn run_op(deps: &mut OwnedDeps<MockStorage, MockApi, World, Empty>, op: &str
         "convert_bs" => (mock_info("bsei_token", &[]), hook(Cw20HookMsg::Convert {})),
         "convert_sb" => (mock_info("stsei_token", &[]), hook(Cw20HookMsg::Convert {})),
         "check_slashing" => (mock_info("anyone", &[]), ExecuteMsg::CheckSlashing {}),
+        "update_global" => (mock_info("updater", &[]), ExecuteMsg::UpdateGlobalIndex { airdrop_hooks: None }),
+        "update_global_registry" => (mock_info("registry", &[]), ExecuteMsg::UpdateGlobalIndex { airdrop_hooks: None }),
         _ => panic!("op"),
     };
     execute(deps.as_mut(), env, info, msg)
@@ -90,7 +92,7 @@ pub fn run_op(deps: &mut OwnedDeps<MockStorage, MockApi, World, Empty>, op: &str
 
 impl Driver for HubOp {
     fn gen(&self, rng: &mut Rng, i: u64) -> Value {
-        let ops = ["bond", "bond_stsei", "bond_rewards", "unbond_bsei", "unbond_stsei", "convert_bs", "convert_sb", "check_slashing"];
+        let ops = ["bond", "bond_stsei", "bond_rewards", "unbond_bsei", "unbond_stsei", "convert_bs", "convert_sb", "check_slashing", "update_global", "update_global_registry"];
         let op = ops[(rng.next() % ops.len() as u64) as usize];
         let big = i % 3 == 0;
         let cap: u128 = if big { E18 } else { 100_000 };
@@ -147,7 +149,8 @@ impl Driver for HubOp {
             let undelegating = undelegated_now > 0 || cb1.id != cb0.id;
             // C02: books never exceed what is delegated after the messages run
             let deleg_after = delegated + delegated_now - undelegated_now;
-            c.insert("C02.books_le_delegated".to_string(), b1 + s1 <= deleg_after);
+            // (stated for the pricing operations; an index update prices nothing and runs no slashing check)
+            if !op.starts_with("update_global") { c.insert("C02.books_le_delegated".to_string(), b1 + s1 <= deleg_after); }
             c.insert("C02.no_bank_message".to_string(), bank == 0);
             match op {
                 "bond" | "bond_stsei" | "bond_rewards" => {
@@ -185,6 +188,20 @@ impl Driver for HubOp {
                 }
                 "check_slashing" => {
                     c.insert("cs#books_set_to_actual".to_string(), b1 == ab && s1 == as_);
+                }
+                "update_global" | "update_global_registry" => {
+                    // C19: rewards are withdrawn from every validator the hub delegates to, then swap, then dispatch, in that order
+                    let mut want: Vec<String> = deps.querier.delegations.iter().map(|d| format!("withdraw:{}", d.0)).collect();
+                    want.push("swap".into()); want.push("dispatch".into());
+                    let got: Vec<String> = resp.messages.iter().map(|m| match &m.msg {
+                        CosmosMsg::Distribution(cosmwasm_std::DistributionMsg::WithdrawDelegatorReward { validator }) => format!("withdraw:{}", validator),
+                        CosmosMsg::Wasm(WasmMsg::Execute { contract_addr, msg, .. }) if contract_addr == "dispatcher" => {
+                            let t = String::from_utf8_lossy(msg.as_slice()).to_string();
+                            if t.contains("swap_to_reward_denom") { "swap".into() } else if t.contains("dispatch_rewards") { "dispatch".into() } else { format!("other:{}", t) }
+                        }
+                        _ => "other".into() }).collect();
+                    c.insert("ugl#withdraw_swap_dispatch_in_order".to_string(), got == want);
+                    c.insert("ugl#books_untouched".to_string(), b1 == bb0 && s1 == bs0);
                 }
                 _ => {}
             }
